@@ -32,6 +32,11 @@ def cases(draw, tier="quick"):
     # compressor boundary: short / incompressible data and metadata with every compressor, small blocks
     mode = "file"
     o = draw(packlib.pack_opts(mode=mode, small_blocks=True))
+    if o["comp"] == "xz" and draw(st.booleans()):
+        # xz dictionary sizes: 2^n and 2^n + 2^(n+1) are the legal ones (format.adoc, the kernel checks it); anything else has to be
+        # refused rather than stored in the compressor options
+        o["X"] = "dictsize=" + draw(st.sampled_from(["8192", "12288", "24576", "28672", "57344", "61440", "114688", "10000", "28K", "98304", "8193", "1M", "1536K", "1792K"]))
+        o["X_may_be_refused"] = True
     n = draw(st.integers(1, 12))
     nodes = []
     for i in range(n):
@@ -68,6 +73,8 @@ def check_case(case, opts):
             raise Inconclusive(str(e))
         if r.sanitizer():
             raise Violation("gensquashfs: " + r.sanitizer(), r.err.decode(errors="replace")[-2000:], sig="sanitizer")
+        if r.rc != 0 and not r.timeout and case["opts"].get("X_may_be_refused"):
+            return CaseInfo(False, ["refused_option_value"])
         if r.rc != 0 or r.timeout:
             try:
                 packlib.expected_for_case(case)
